@@ -701,6 +701,37 @@ theorem crc32_algebraic (data : List Byte) (seed : BitVec 32) (r : List Bool) :
   rw [crc32_eq_gf2, Option.some.injEq, eq_comm]
   exact (crcPoly_iff_algebraic g32_04C11DB7.tail _ _ r (by simp [toBits_length, g32_04C11DB7])).symm
 
+/-- how a register is read as a polynomial in `IsCrcRemainder … (toBits v)`: the coefficient of `X^i` is bit `i` of `v`
+(MSB-first CRCs), -/
+theorem hcoeff_toBits {w : Nat} (x : BitVec w) (i : Nat) : hcoeff (toBits x) i = x.getLsbD i := by
+  unfold hcoeff coeff toBits
+  by_cases h : i < w
+  · rw [List.getD_eq_getElem?_getD, List.getElem?_reverse (by simpa using h)]
+    have h2 : w - 1 - i < w := by omega
+    have : w - 1 - (w - 1 - i) = i := by omega
+    simp [BitVec.getMsbD, h2, this]
+  · rw [List.getD_eq_getElem?_getD, List.getElem?_eq_none (by simp; omega)]
+    simp
+    exact BitVec.getLsbD_of_ge x i (by omega)
+
+/-- … and for the reflected Dallas CRC-8 (`toBitsRev`) the coefficient of `X^i` is bit `w-1-i` (bit 0 holds `X^(w-1)`) -/
+theorem hcoeff_toBitsRev {w : Nat} (x : BitVec w) (i : Nat) : hcoeff (toBitsRev x) i = x.getMsbD i := by
+  unfold hcoeff coeff toBitsRev
+  by_cases h : i < w
+  · rw [List.getD_eq_getElem?_getD, List.getElem?_reverse (by simpa using h)]
+    have h2 : w - 1 - i < w := by omega
+    simp [BitVec.getMsbD, h, h2]
+  · rw [List.getD_eq_getElem?_getD, List.getElem?_eq_none (by simp; omega)]
+    simp [BitVec.getMsbD]
+    omega
+
+/-- the residue clause in algebraic form: a frame (message followed by its own streaming CRC-8) is a MULTIPLE of the
+generator - `F(X)·X^8 + init(X)·X^|F| = q(X)·(X^8+X^5+X^4+1)`, remainder zero -/
+theorem strm_frame_is_multiple (seed : BitVec 8) (m : List Byte) :
+    IsCrcRemainder g8_31.tail (toBits seed) ((m ++ [strmcrc8 seed m]).flatMap bitsMsbFirst) (List.replicate 8 false) := by
+  rw [strmcrc8_algebraic, strmcrc8_residue]
+  decide
+
 /-- non-vacuity: the catalogue value 0x75 of CRC-7/MMC is a remainder in the algebraic sense -/
 example : IsCrcRemainder g7_09.tail (List.replicate 7 false)
     (([0x31, 0x32, 0x33, 0x34, 0x35, 0x36, 0x37, 0x38, 0x39] : List Byte).flatMap bitsMsbFirst) (toBits 0x75#7) :=
